@@ -252,7 +252,18 @@ fn wdl_bytes(f: &WdlFile) -> Result<Vec<u8>, String> {
     Ok(c.into_inner())
 }
 /// canonical content of what the given version can carry
+/// which chunks a WDL of each version carries, as the crate documents it (README / lib.rs: MAHO from WotLK on, MWMO/MWID/MODF from
+/// WotLK up to Warlords of Draenor, MLDD/MLMD from Legion on); kept here so that the comparison does not take the library's word for it
+fn spec_caps(v: WdlVersion) -> (bool, bool, bool) {
+    let i = (0..10).find(|&i| wdl_version(i) == v).unwrap_or(9);
+    (i >= 1, (1..=4).contains(&i), i >= 5)
+}
+
 fn wdl_dump(f: &WdlFile, v: WdlVersion) -> String {
+    let (maho, wmo, ml) = spec_caps(v);
+    if (v.has_maho_chunk(), v.has_wmo_chunks(), v.has_ml_chunks()) != (maho, wmo, ml) {
+        return format!("CAPABILITIES-OF-{v:?}-CHANGED");
+    }
     let mut s = String::new();
     let mut keys: Vec<_> = f.heightmap_tiles.keys().cloned().collect();
     keys.sort();
@@ -308,7 +319,9 @@ fn main() {
                 Ok(p) => p,
                 Err(e) => return format!("FAIL parse-error {e}"),
             };
-            if wdl_dump(&p, v) != wdl_dump(&f, v) {
+            let want = wdl_dump(&f, v);
+            if want.starts_with("CAPABILITIES") { return format!("FAIL {want}"); }
+            if wdl_dump(&p, v) != want {
                 return "FAIL content-differs".to_string();
             }
             let mut p2 = p;
